@@ -27,31 +27,38 @@ func main() { drv.Main("coinswap", csDriver) }
 //	accounts: "u1".. users, "esc-lpt-N" = escrow address of lpt-N (hash of the
 //	          denom, whether or not the pool exists yet), "module" = coinswap
 //	          module account, "feepool" = fee collector + distribution account
-//	denoms:   "stake" standard, "btc","eth" tokens, "lpt-N" liquidity tokens
+//	denoms:   "stake" standard, "btc","eth" tokens, "lpt-N" liquidity tokens,
+//	          "voucher-1" an ODD coin: an ordinary bank coin held by every user whose
+//	          denom is shaped like a liquidity denom (types.ParseLptDenom accepts it);
+//	          anybody may open a pool on it, so there is one liquidity denom / escrow
+//	          account more than there are tokens.  Messages may also name denoms
+//	          outside this universe ("BTC", "lpt-9": nobody holds any) - passed through
 //	time:     now = block time (unix seconds) - base; deadlines likewise
 //	fees:     the on-chain decimals are exactly n/d with d | 10^18 (DESIGN 4.2);
 //	          the projection reads them back from the store and reduces them
 type csEnv struct {
-	c      *chain.Chain
-	users  []string
-	tokens []string
-	lpts   []string
-	std    string
-	names  map[string]string // bech32 -> account name
-	off    map[string]sdkmath.Int
-	base   int64
-	dt     int64 // seconds between the last block and the one executed next
-	nextDt int64 // the same for the block after (used by the end-of-block projection)
-	last   chain.M
-	skew   bool   // random driver: pools of very different depth
-	cfg    string // effective driver configuration (logged so that replays are self-contained)
+	c        *chain.Chain
+	users    []string
+	tokens   []string
+	odd      []string // odd plain coins of the closed universe (cfg odd=0 switches them off)
+	lpts     []string
+	std      string
+	names    map[string]string // bech32 -> account name
+	off      map[string]sdkmath.Int
+	base     int64
+	dt       int64 // seconds between the last block and the one executed next
+	nextDt   int64 // the same for the block after (used by the end-of-block projection)
+	last     chain.M
+	skew     bool   // random driver: pools of very different depth
+	probePct int    // random driver: share of events that are negative probes (wrong-kind denoms, odd roles)
+	cfg      string // effective driver configuration (logged so that replays are self-contained)
 }
 
 var cfgKeys = []struct {
 	k string
 	d int64
 }{{"users", 3}, {"tokens", 2}, {"initstd", 30}, {"inittok", 30}, {"fee", 3}, {"feenum", 3}, {"feeden", 10},
-	{"uninum", 2}, {"uniden", 10}, {"taxnum", 2}, {"taxden", 5}}
+	{"uninum", 2}, {"uniden", 10}, {"taxnum", 2}, {"taxden", 5}, {"odd", 1}, {"initodd", 9}, {"probe", 18}}
 
 func effectiveCfg(fl *drv.Flags) string {
 	var parts []string
@@ -87,15 +94,22 @@ func newEnv(fl *drv.Flags) *csEnv {
 		dt:     1, nextDt: 1,
 		cfg: effectiveCfg(fl),
 	}
-	for i := range e.tokens {
+	e.odd = []string{"voucher-1"}[:fl.CfgInt("odd", 1)]
+	e.probePct = int(fl.CfgInt("probe", 18))
+	for i := 0; i < len(e.tokens)+len(e.odd); i++ {
 		e.lpts = append(e.lpts, fmt.Sprintf("lpt-%d", i+1))
 	}
-	initStd, initTok := fl.CfgInt("initstd", 30), fl.CfgInt("inittok", 30)
+	initStd, initTok, initOdd := fl.CfgInt("initstd", 30), fl.CfgInt("inittok", 30), fl.CfgInt("initodd", 9)
 	accts := map[string]string{}
 	for _, u := range e.users {
 		s := fmt.Sprintf("%d%s", initStd, e.std)
 		for _, d := range e.tokens {
 			s += fmt.Sprintf(",%d%s", initTok, d)
+		}
+		for _, d := range e.odd {
+			if initOdd > 0 {
+				s += fmt.Sprintf(",%d%s", initOdd, d)
+			}
 		}
 		accts[u] = s
 	}
@@ -136,7 +150,7 @@ func newEnv(fl *drv.Flags) *csEnv {
 }
 
 func (e *csEnv) denoms() []string {
-	return append(append([]string{e.std}, e.tokens...), e.lpts...)
+	return append(append(append([]string{e.std}, e.tokens...), e.odd...), e.lpts...)
 }
 
 func (e *csEnv) accounts() []string {
@@ -392,6 +406,11 @@ func (e *csEnv) runBlock(pending []chain.M, dtNext int64, w *chain.TraceWriter) 
 			ev["name"] = "TxFailed"
 		}
 		e.fillResp(ev, r)
+		if r.Aborted {
+			// a recovered panic belongs to the message that raised it, not to the pseudo event
+			// standing for a rolled-back member of its transaction
+			ev["panic"] = false
+		}
 		if !r.OK && os.Getenv("COINSWAP_DEBUG") != "" {
 			fmt.Fprintf(os.Stderr, "rejected %v %v: %s\n", ev["name"], ev["who"], r.Log)
 		}
@@ -457,8 +476,19 @@ func csRun(fl *drv.Flags, beh []chain.M, w *chain.TraceWriter, epilogue bool) {
 
 func (e *csEnv) now() int64 { return e.last["now"].(int64) }
 
+// balM reads the last observed balance sheet; 0 for a cell outside the tracked universe
+// (a broken tree may register pools whose accounts / denoms are not tracked).
 func (e *csEnv) balM(a, d string) int64 {
-	return e.last["bal"].(chain.M)[a].(chain.M)[d].(int64)
+	bal, _ := e.last["bal"].(chain.M)
+	row, _ := bal[a].(chain.M)
+	v, _ := row[d].(int64)
+	return v
+}
+
+func (e *csEnv) supM(d string) (int64, bool) {
+	sup, _ := e.last["supply"].(chain.M)
+	v, ok := sup[d].(int64)
+	return v, ok
 }
 
 type poolView struct {
@@ -468,21 +498,27 @@ type poolView struct {
 
 func (e *csEnv) poolViews() []poolView {
 	var out []poolView
-	pools := e.last["pools"].(chain.M)
+	pools, _ := e.last["pools"].(chain.M)
+	bal, _ := e.last["bal"].(chain.M)
 	for _, d := range chain.SortedKeys(pools) {
-		p := pools[d].(chain.M)
-		lpt, esc := p["lpt"].(string), p["esc"].(string)
-		if _, ok := e.last["bal"].(chain.M)[esc]; !ok {
+		p, _ := pools[d].(chain.M)
+		lpt, _ := p["lpt"].(string)
+		esc, _ := p["esc"].(string)
+		L, okL := e.supM(lpt)
+		if _, ok := bal[esc]; !ok || !okL {
 			continue
 		}
-		out = append(out, poolView{d, lpt, esc, e.balM(esc, e.std), e.balM(esc, d),
-			e.last["supply"].(chain.M)[lpt].(int64)})
+		out = append(out, poolView{d, lpt, esc, e.balM(esc, e.std), e.balM(esc, d), L})
 	}
 	return out
 }
 
 // epilogue: every user withdraws all liquidity (pools end empty when nothing
-// was donated), then the first user funds every pool again.
+// was donated), the emptied pools are probed with messages that an empty pool
+// must turn away or survive, then the first user funds every pool again.
+// Everything is computed from the REAL state last
+// observed (registry, balances, supplies) - never from what a model expected -
+// so that whatever the code accepted before, its consequences are exercised.
 func (e *csEnv) epilogue(w *chain.TraceWriter) {
 	var pending []chain.M
 	for _, p := range e.poolViews() {
@@ -494,8 +530,30 @@ func (e *csEnv) epilogue(w *chain.TraceWriter) {
 			}
 		}
 	}
-	if len(pending) == 0 {
+	if len(pending) > 0 {
+		e.runBlock(pending, 1, w)
+	}
+	if len(e.poolViews()) == 0 {
 		return
+	}
+	// the pools as they are now (normally: no shares, no reserves; with donations: wedged): two of
+	// four probes per pool, rotating with the pool index and the time
+	pending = nil
+	n := len(e.users)
+	for i, p := range e.poolViews() {
+		dl := e.now() + 1
+		a := csEvent("AddUnilateral", e.users[(i+1)%n])
+		a["denom"], a["tok"], a["amt"], a["deadline"] = p.denom, e.std, int64(1), dl
+		r := csEvent("RemoveUnilateral", e.users[(i+2)%n])
+		r["denom"], r["tok"], r["amt"], r["min1"], r["deadline"] = p.denom, p.denom, int64(1), int64(1), dl
+		l := csEvent("RemoveLiquidity", e.users[i%n])
+		l["denom"], l["amt"], l["deadline"] = p.lpt, int64(1), dl
+		sw := csEvent("Swap", e.users[(i+2)%n])
+		sw["to"], sw["inDenom"], sw["outDenom"], sw["amt"], sw["amt2"] = e.users[i%n], e.std, p.denom, int64(2), int64(1)
+		sw["hops"], sw["deadline"], sw["isBuy"] = int64(1), dl, i%2 == 1
+		four := []chain.M{a, r, l, sw}
+		k := i + int(e.now())
+		pending = append(pending, four[k%4], four[(k+1)%4])
 	}
 	e.runBlock(pending, 1, w)
 	pending = nil
